@@ -95,13 +95,24 @@ fn format_standard(value: f64) -> String {
     add_thousand_separators(&formatted)
 }
 
+/// floor(log10(x)) for a positive finite x. `log10` of a value just below a power of ten rounds
+/// up to that power (log10(999999999999998.9) == 15.0), which would drop a significant digit.
+fn decimal_magnitude(abs_value: f64) -> i32 {
+    let magnitude = abs_value.log10().floor() as i32;
+    if 10_f64.powi(magnitude) > abs_value {
+        magnitude - 1
+    } else {
+        magnitude
+    }
+}
+
 /// Round a number to n significant figures
 fn round_to_significant_figures(value: f64, sig_figs: u32) -> f64 {
     if value == 0.0 {
         return 0.0;
     }
 
-    let magnitude = value.abs().log10().floor() as i32;
+    let magnitude = decimal_magnitude(value.abs());
     let scale = 10_f64.powi(sig_figs as i32 - 1 - magnitude);
     (value * scale).round() / scale
 }
@@ -111,10 +122,10 @@ fn format_float_significant(value: f64, max_sig_figs: usize) -> String {
     // Determine how many decimal places we need
     let abs_value = value.abs();
     let magnitude = if abs_value >= 1.0 {
-        abs_value.log10().floor() as i32 + 1
+        decimal_magnitude(abs_value) + 1
     } else {
         // For numbers < 1, count leading zeros
-        -(abs_value.log10().floor() as i32)
+        -decimal_magnitude(abs_value)
     };
 
     // Calculate decimal places needed for significant figures
